@@ -232,6 +232,24 @@ package bcl
 //@   loop 1 invariant g.consumed > old(g.consumed) || g.lastfin == old(g.lastfin)
 //@   loop 1 increases [C06,C17,C11] g.consumed
 //
+// consume: the one primitive that takes an expected token. Callers execute its body (inline);
+// the contract pins down the primitive itself.
+//@ func (*parser).consume
+//@   inline
+//@   noinv fin
+//@   requires fin_in: (g.lastfin ==> p.current.typ <= tEOF) && !g.lasterr
+//@   ensures [C17] only_the_expected_token_is_taken: g.consumed > old(g.consumed) ==> old(p.current.typ) == typ
+//@   ensures [C17] a_mismatch_is_reported_and_the_token_left_in_place: old(p.current.typ) != typ ==> p.hadError && p.panicMode && g.consumed == old(g.consumed) && p.current == old(p.current) && p.prev == old(p.prev)
+//@   ensures [C17] the_expected_token_becomes_the_previous_one: old(p.current.typ) == typ ==> p.prev == old(p.current)
+//
+//@ func (*parser).match
+//@   inline
+//@   noinv fin
+//@   requires fin_in: (g.lastfin ==> p.current.typ <= tEOF) && !g.lasterr
+//@   ensures [C17] taken_exactly_if_it_is_the_given_token: result == (old(p.current.typ) == typ)
+//@   ensures [C17] otherwise_nothing_moves: !result ==> g.consumed == old(g.consumed) && p.current == old(p.current) && p.prev == old(p.prev) && p.hadError == old(p.hadError) && p.panicMode == old(p.panicMode)
+//@   ensures [C17] the_taken_token_becomes_the_previous_one: result ==> p.prev == old(p.current)
+//
 //@ func (*parser).sync
 //@   ensures [C17] recovered: !p.panicMode || p.current.typ == tFAIL
 //@   ensures [C17] at_statement_start: p.current.typ <= tEOF || p.current.typ == tVAR || p.current.typ == tDEF || p.current.typ == tPRINT || p.current.typ == tEVAL
